@@ -28,34 +28,69 @@ META = {
                   ('chords_lib', 'ChordProgression.transpose'),
                   ('lead_sheets_lib', 'LeadSheet.transpose'),
                   ('lead_sheets_lib', 'LeadSheet.squash'),
-                  ('melodies_lib', 'Melody.get_major_key')],
+                  ('melodies_lib', 'Melody.get_major_key'),
+                  ('melodies_lib', 'Melody.get_major_key_histogram'),
+                  ('chord_symbols_lib', '_split_chord_symbol')],
     'assumptions': [
         'pitches 0..127, k in -127..127, allowed range within 0..127',
         'total_time after transposition is only required to cover the kept '
-        'notes (the statement\'s "all times alone" is read as note/event times)',
+        'notes and not to exceed the input total_time (the statement\'s "all '
+        'times alone" is read as note/event times)',
         'chord symbols come from a grid assembled from the module\'s own root '
         'and kind tables (concrete strings), k symbolic',
-        'Melody.squash / LeadSheet.squash with a target key: only "every '
-        'note moves by the RETURNED amount mod 12 into [min,max), chords by '
-        'the same amount" is required; which key the heuristic picks is not '
-        'part of the property (key histogram and argmax run through np-lite)',
+        'Melody.squash / LeadSheet.squash with a target key: every note '
+        'moves by the RETURNED amount mod 12 into [min,max), chords by the '
+        'same amount; the amount itself is checked against the docstrings '
+        '(target key - get_major_key mod 12, octave that centres the melody; '
+        'get_major_key = lowest-index major key holding most notes; key '
+        'histogram and argmax run through np-lite)',
+        'keyword defaults (transpose_note_sequence, augment_note_sequence, '
+        'Melody/LeadSheet.transpose) are exercised as documented: 0..127 / '
+        '[0,128), chords transposed, not in place, no deletion',
+        'malformed chord symbols (7 concrete strings) must raise '
+        'ChordSymbolError; transpose_chords=False never interprets them',
+        'augment_note_sequence: amount in the requested interval truncated to '
+        'the room when that is non-empty (empty truncation undocumented, only '
+        'the magnitude bound is required); delete mode with pitches anywhere '
+        'in 0..127: one k of the interval explains survivors and their '
+        'pitches; ValueError iff a (min,max) pair is reversed; note times '
+        'scaled by one factor in [min_stretch, max_stretch]; total_time only '
+        'bounded above',
+        '_clamp_transpose exact value only for sequences already inside the '
+        'allowed range (outside it the docstring promises nothing)',
     ],
     'bounds': {
-        'quick': 'N<=2 notes; melody length <=2; 40 chord symbols; alter in '
-                 '[-3,3]',
+        'quick': 'N<=2 notes (0..2), <=2 key signatures, <=3 chord '
+                 'annotations + BEAT/UNKNOWN text, 1 tempo / time signature / '
+                 'pitch bend / control change; melody length <=2 (major key '
+                 '<=3); 40 chord symbols; alter in [-3,3]',
         'thorough': 'N<=3; melody length <=4; ~700 chord symbols (35 roots x '
                     'first abbreviation of every kind x modifications x bass)',
     },
-    'outside': ['which key squash picks', 'longer melodies / more notes'],
+    'outside': ['longer melodies / more notes',
+                'spelling (enharmonic choice) of transposed symbols',
+                'sequences without key signatures',
+                '_clamp_transpose / augment on sequences already outside the '
+                'allowed range without deletion',
+                'exact total_time after transposition'],
 }
 
 
 def h_transpose_ns(c):
+  """params: N, in_place, transpose_chords; defaults=True calls
+  transpose_note_sequence(ns, k) with every keyword left at its documented
+  default (range 0..127, chords transposed, a copy is returned); rich=[fig,
+  fig] adds a second key signature, two real chord symbols, a BEAT annotation,
+  a tempo, a time signature, a pitch bend and the remaining note fields."""
   N = c.params['N']
   pb, sl = c.pb, c.mod('sequences_lib')
   TA = pb.NoteSequence.TextAnnotation
+  rich = c.params.get('rich')
+  defaults = c.params.get('defaults', False)
   ns = pb.NoteSequence()
   notes = []
+  extra = ('program', 'numerator', 'denominator', 'voice', 'part',
+           'quantized_start_step', 'quantized_end_step')
   for i in range(N):
     d = dict(
         pitch=c.int('n%d_p' % i, 0, 127),
@@ -65,6 +100,9 @@ def h_transpose_ns(c):
         is_drum=c.bool('n%d_d' % i),
         pitch_name=c.int('n%d_pn' % i, 0, 35),
         instrument=c.int('n%d_i' % i, 0, 3))
+    if rich:
+      for j, f in enumerate(extra):
+        d[f] = c.int('n%d_x%d' % (i, j), 0, 16)
     c.assume(d['end_time'] >= d['start_time'])
     ns.notes.add(**d)
     notes.append(d)
@@ -74,57 +112,120 @@ def h_transpose_ns(c):
   ns.total_time = tt
   key = c.int('key', 0, 11)
   ns.key_signatures.add(time=0, key=key, mode=c.int('mode', 0, 1))
+  keys = [key]
   ns.text_annotations.add(time=0, text='free text', annotation_type=TA.UNKNOWN)
   ns.text_annotations.add(time=0, text='N.C.', annotation_type=TA.CHORD_SYMBOL)
   ns.control_changes.add(time=c.real('cc_t', 0), control_number=64,
                          control_value=100)
+  if rich:
+    key2 = c.int('key2', 0, 11)
+    ns.key_signatures.add(time=c.real('ks2_t', 0), key=key2,
+                          mode=c.int('mode2', 0, 1))
+    keys.append(key2)
+    ns.text_annotations.add(time=c.real('ta2_t', 0), text=rich[0],
+                            annotation_type=TA.CHORD_SYMBOL)
+    ns.text_annotations.add(time=c.real('ta3_t', 0), text='beat',
+                            annotation_type=TA.BEAT)
+    ns.text_annotations.add(time=c.real('ta4_t', 0), text=rich[1],
+                            annotation_type=TA.CHORD_SYMBOL)
+    ns.tempos.add(time=c.real('tp_t', 0), qpm=c.real('tp_q', 10, 480))
+    ns.time_signatures.add(time=c.real('ts_t', 0),
+                           numerator=c.int('ts_n', 1, 12), denominator=4)
+    ns.pitch_bends.add(time=c.real('pb_t', 0), bend=c.int('pb_b', -8192, 8191),
+                       instrument=c.int('pb_i', 0, 3))
   k = c.int('k', -127, 127)
-  lo = c.int('lo', 0, 127)
-  hi = c.int('hi', 0, 127)
-  in_place = c.params['in_place']
   before = c.snapshot(ns)
-  tchords = c.params.get('transpose_chords', True)
-  out, deleted = sl.transpose_note_sequence(ns, k, lo, hi,
-                                            transpose_chords=tchords,
-                                            in_place=in_place)
+  if defaults:
+    # every keyword at its documented default: all MIDI pitches 0..127 are
+    # allowed, chord symbols are transposed, the input is not edited
+    lo, hi, in_place, tchords = 0, 127, False, True
+    out, deleted = sl.transpose_note_sequence(ns, k)
+  else:
+    lo = c.int('lo', 0, 127)
+    hi = c.int('hi', 0, 127)
+    in_place = c.params['in_place']
+    tchords = c.params.get('transpose_chords', True)
+    out, deleted = sl.transpose_note_sequence(ns, k, lo, hi,
+                                              transpose_chords=tchords,
+                                              in_place=in_place)
   if in_place:
     c.check(out is ns, 'in_place=True returns the same object')
   else:
     c.check(out is not ns, 'in_place=False returns a copy')
     c.check(c.msg_eq(ns, before), 'input unchanged')
+  fields = ('pitch', 'velocity', 'start_time', 'end_time', 'is_drum',
+            'pitch_name', 'instrument') + (extra if rich else ())
   exp = []
   for n in notes:
     keep = c.Or(n['is_drum'], c.And(lo <= n['pitch'] + k, n['pitch'] + k <= hi))
     newp = c.If(n['is_drum'], n['pitch'], n['pitch'] + k)
     newname = c.If(n['is_drum'], n['pitch_name'], 0)
     exp.append((keep, (newp, n['velocity'], n['start_time'], n['end_time'],
-                       n['is_drum'], newname, n['instrument'])))
-  got = [(m.pitch, m.velocity, m.start_time, m.end_time, m.is_drum,
-          m.pitch_name, m.instrument) for m in out.notes]
+                       n['is_drum'], newname, n['instrument']) +
+                tuple(n[f] for f in fields[7:])))
+  got = [tuple(getattr(m, f) for f in fields) for m in out.notes]
   c.check(K.multiset_eq(c, got, exp),
           'kept notes = in-range or drum notes, pitched ones moved by k')
   c.check(c.eq(deleted, N - c.Count([cd for cd, _ in exp])),
           'deleted count exact')
   for m in out.notes:
     c.check(out.total_time >= m.end_time, 'total_time covers kept notes')
+  # "all times alone": dropping notes may shorten the sequence, nothing may
+  # lengthen it
+  c.check(out.total_time <= tt, 'total_time never grows')
   c.check(c.eq(out.key_signatures[0].key, (key + k) % 12),
           'key signature moved by k mod 12')
+  c.check(len(out.key_signatures) == len(keys) and bool(c.And([
+      c.And(c.eq(o.key, (ky + k) % 12), c.eq(o.mode, b.mode),
+            c.eq(o.time, b.time))
+      for o, b, ky in zip(out.key_signatures, before.key_signatures, keys)])),
+          'every key signature moved by k mod 12, mode and time untouched')
+  n_ta = len(before.text_annotations)
   if tchords:
     c.check(c.And(c.msg_eq(out.text_annotations[0], before.text_annotations[0]),
                   c.msg_eq(out.text_annotations[1], before.text_annotations[1]),
                   c.msg_eq(out.control_changes[0], before.control_changes[0])),
             'non-chord annotations, N.C. and control changes untouched')
+    c.check(len(out.text_annotations) == n_ta and len(out.control_changes) == 1,
+            'no annotation or control change added or removed')
   else:
     # transpose_chords=False: chord symbols are removed, everything else
     # (including the key shift above) is as before
-    c.check(len(out.text_annotations) == 1 and bool(c.And(
+    c.check(len(out.text_annotations) == (2 if rich else 1) and bool(c.And(
         c.msg_eq(out.text_annotations[0], before.text_annotations[0]),
         c.msg_eq(out.control_changes[0], before.control_changes[0]))),
             'transpose_chords=False removes the chord symbols only')
-  c.cover('a note falls just outside the allowed range',
-          c.And(c.Not(notes[0]['is_drum']), c.eq(notes[0]['pitch'] + k, hi + 1)))
-  c.cover('a drum note outside the range is kept',
-          c.And(notes[0]['is_drum'], notes[0]['pitch'] + k > hi))
+  if rich:
+    cs = c.mod('chord_symbols_lib')
+    c.check(len(out.tempos) == 1 and len(out.time_signatures) == 1 and
+            len(out.pitch_bends) == 1 and bool(c.And(
+                c.msg_eq(out.tempos[0], before.tempos[0]),
+                c.msg_eq(out.time_signatures[0], before.time_signatures[0]),
+                c.msg_eq(out.pitch_bends[0], before.pitch_bends[0]))),
+            'tempo, time signature and pitch bend untouched')
+    if tchords:
+      kk = c.concretize(k % 12)
+      c.check(c.msg_eq(out.text_annotations[3], before.text_annotations[3]),
+              'BEAT annotation untouched')
+      for idx, fig in ((2, rich[0]), (4, rich[1])):
+        o, b = out.text_annotations[idx], before.text_annotations[idx]
+        r0, b0, p0, q0 = _ref(cs, fig)
+        r1, b1, p1, q1 = _ref(cs, o.text)
+        c.check((r1, b1, q1) == ((r0 + kk) % 12, (b0 + kk) % 12, q0) and
+                p1 == sorted((p + kk) % 12 for p in p0),
+                'every chord annotation moved by k mod 12')
+        c.check(c.And(c.eq(o.time, b.time),
+                      c.eq(o.annotation_type, b.annotation_type)),
+                'chord annotation time and type untouched')
+    else:
+      c.check(c.msg_eq(out.text_annotations[1], before.text_annotations[3]),
+              'BEAT annotation survives the removal of chord symbols')
+  if notes:
+    c.cover('a note falls just outside the allowed range',
+            c.And(c.Not(notes[0]['is_drum']),
+                  c.eq(notes[0]['pitch'] + k, hi + 1)))
+    c.cover('a drum note outside the range is kept',
+            c.And(notes[0]['is_drum'], notes[0]['pitch'] + k > hi))
 
 
 def h_spelling(c):
@@ -184,7 +285,10 @@ def h_ns_chords(c):
   ns.text_annotations.add(time=1, text=figure, annotation_type=TA.CHORD_SYMBOL)
   ns.text_annotations.add(time=2, text=figure, annotation_type=TA.UNKNOWN)
   k = c.int('k', -127, 127)
+  before = c.snapshot(ns)
   out, _ = sl.transpose_note_sequence(ns, k)
+  c.check(out is not ns and bool(c.msg_eq(ns, before)),
+          'default in_place: a copy is returned, the input keeps its chords')
   kk = c.concretize(k % 12)
   r0, b0, p0, q0 = _ref(cs, figure)
   r1, b1, p1, q1 = _ref(cs, out.text_annotations[0].text)
@@ -196,6 +300,38 @@ def h_ns_chords(c):
   c.check(len(out2.text_annotations) == 1 and
           out2.text_annotations[0].annotation_type == TA.UNKNOWN,
           'transpose_chords=False removes exactly the chord symbols')
+
+
+def h_bad_symbol(c):
+  """A chord symbol the grammar does not generate raises ChordSymbolError
+  (documented for transpose_chord_symbol, ChordProgression.transpose and
+  transpose_note_sequence); with transpose_chords=False nothing is interpreted,
+  the symbol is just removed."""
+  pb, sl = c.pb, c.mod('sequences_lib')
+  cs = c.mod('chord_symbols_lib')
+  cl = c.mod('chords_lib')
+  TA = pb.NoteSequence.TextAnnotation
+  figure = c.params['figure']
+  k = c.int('k', -127, 127)
+  _, err = c.raises(cs.transpose_chord_symbol, figure, k)
+  c.check(isinstance(err, cs.ChordSymbolError),
+          'transpose_chord_symbol rejects a malformed symbol')
+  prog = cl.ChordProgression(['N.C.', figure])
+  _, err = c.raises(prog.transpose, k)
+  c.check(isinstance(err, cs.ChordSymbolError),
+          'ChordProgression.transpose rejects a malformed symbol')
+  ns = pb.NoteSequence()
+  ns.notes.add(pitch=60, velocity=64, start_time=0, end_time=1)
+  ns.total_time = 1
+  ns.text_annotations.add(time=0, text='C', annotation_type=TA.CHORD_SYMBOL)
+  ns.text_annotations.add(time=1, text=figure, annotation_type=TA.CHORD_SYMBOL)
+  _, err = c.raises(sl.transpose_note_sequence, ns, k)
+  c.check(isinstance(err, cs.ChordSymbolError),
+          'transpose_note_sequence rejects a malformed chord symbol')
+  res, err = c.raises(sl.transpose_note_sequence, ns, k,
+                      transpose_chords=False)
+  c.check(err is None and len(res[0].text_annotations) == 0,
+          'transpose_chords=False removes symbols without interpreting them')
 
 
 def h_melody(c):
@@ -250,6 +386,90 @@ def h_melody(c):
     c.cover('note folded from above', c.And(ev[0] >= 0, ev[0] + k >= hi))
 
 
+def _folded(c, e, r, k, lo, hi):
+  """Documented result of transposing melody event e by k into [lo, hi)."""
+  return c.If(e < 0, c.eq(r, e),
+              c.And(r >= lo, r < hi, c.eq((r - e - k) % 12, 0),
+                    c.Implies(c.And(e + k >= lo, e + k < hi), c.eq(r, e + k))))
+
+
+def h_melody_kw(c):
+  """Melody.transpose with one bound given and the other left at its default
+  (min_note=0, max_note=128), positionally and by keyword; the melody's
+  start step and bar length are not part of what transposition changes."""
+  L = c.params['L']
+  ml = c.mod('melodies_lib')
+  ev = [c.int('e%d' % i, -2, 127) for i in range(L)]
+  k = c.int('k', -127, 127)
+  lo = c.int('lo', 0, 116)
+  hi = c.int('hi', 12, 128)
+  start = c.int('start', 0, 64)
+  spb = c.int('spb', 1, 32)
+  which = c.params['which']
+  m = ml.Melody(list(ev), start_step=start, steps_per_bar=spb)
+  ev = list(m)
+  if which == 'min':
+    m.transpose(k, lo)
+    rng = (lo, 128)
+  elif which == 'min_kw':
+    m.transpose(k, min_note=lo)
+    rng = (lo, 128)
+  else:
+    m.transpose(k, max_note=hi)
+    rng = (0, hi)
+  res = list(m)
+  c.check(len(res) == L, 'length unchanged')
+  for e, r in zip(ev, res):
+    c.check(_folded(c, e, r, k, rng[0], rng[1]),
+            'one bound given, the other at its default: notes folded into '
+            '[min_note, 128) resp. [0, max_note)')
+  c.check(c.And(c.eq(m.start_step, start), c.eq(m.steps_per_bar, spb),
+                c.eq(m.end_step, start + L)),
+          'start step, end step and bar length untouched')
+  if L:
+    c.cover('note folded', c.And(ev[0] >= 0, c.Or(ev[0] + k < rng[0],
+                                                  ev[0] + k >= rng[1])))
+
+
+def h_sheet(c):
+  """LeadSheet.transpose(k, min_note, max_note): the melody is folded into the
+  GIVEN range, every chord moves by k mod 12 (root, bass, pitch classes,
+  quality), N.C. stays; LeadSheet.squash leaves the melody where Melody.squash
+  is documented to put it."""
+  cl = c.mod('chords_lib')
+  ls = c.mod('lead_sheets_lib')
+  ml = c.mod('melodies_lib')
+  cs = c.mod('chord_symbols_lib')
+  figs = c.params['figures']
+  k = c.int('k', -127, 127)
+  lo = c.int('lo', 0, 116)
+  hi = c.int('hi', 12, 128)
+  c.assume(hi - lo >= 12)
+  ev = [c.int('e%d' % i, -2, 127) for i in range(len(figs))]
+  sheet = ls.LeadSheet(ml.Melody(list(ev)), cl.ChordProgression(list(figs)))
+  ev = list(sheet.melody)
+  sheet.transpose(k, lo, hi)
+  res = list(sheet.melody)
+  c.check(len(res) == len(figs) and len(list(sheet.chords)) == len(figs),
+          'lengths unchanged')
+  for e, r in zip(ev, res):
+    c.check(_folded(c, e, r, k, lo, hi),
+            'lead sheet melody folded into the given [min_note, max_note)')
+  kk = c.concretize(k % 12)
+  for f, g in zip(figs, list(sheet.chords)):
+    if f == 'N.C.':
+      c.check(g == 'N.C.', 'lead sheet no-chord untouched')
+      continue
+    r0, b0, p0, q0 = _ref(cs, f)
+    r1, b1, p1, q1 = _ref(cs, g)
+    c.check((r1, b1, q1) == ((r0 + kk) % 12, (b0 + kk) % 12, q0) and
+            p1 == sorted((p + kk) % 12 for p in p0),
+            'lead sheet chord moved by k mod 12 (root, bass, pitch classes, '
+            'quality)')
+  c.cover('sheet note folded', c.And(ev[0] >= 0, c.Or(ev[0] + k < lo,
+                                                      ev[0] + k >= hi)))
+
+
 def h_progression(c):
   cl = c.mod('chords_lib')
   ls = c.mod('lead_sheets_lib')
@@ -285,6 +505,37 @@ def h_progression(c):
               'lead sheet chord root moved by k mod 12')
 
 
+_MAJOR_SCALE = (0, 2, 4, 5, 7, 9, 11)
+
+
+def _is_major_key(c, ev, M):
+  """M is the documented get_major_key of the events: the major key (0 = C)
+  into which most notes fit, the lowest index among equals."""
+  pcs = [e % 12 for e in ev]
+
+  def cnt(key):
+    return c.Sum([c.If(c.And(e >= 0, c.Or([c.eq(pc, (d + key) % 12)
+                                            for d in _MAJOR_SCALE])), 1, 0)
+                  for e, pc in zip(ev, pcs)] or [0])
+  cs_ = [cnt(key) for key in range(12)]
+  return c.And([cs_[M] >= cs_[j] for j in range(12)] +
+               [cs_[M] > cs_[j] for j in range(M)])
+
+
+def h_major_key(c):
+  """Melody.get_major_key against its docstring."""
+  ml = c.mod('melodies_lib')
+  L = c.params['L']
+  ev = [c.int('e%d' % i, -2, 127) for i in range(L)]
+  m = ml.Melody(list(ev))
+  ev = list(m)
+  mk = m.get_major_key()
+  c.check(c.Or([c.And(c.eq(mk, M), _is_major_key(c, ev, M))
+                for M in range(12)]),
+          'get_major_key = lowest major key holding the most notes')
+  c.cover('key other than C', c.Not(c.eq(mk, 0)))
+
+
 def h_squash(c):
   """Melody.squash / LeadSheet.squash to a target key: every note moves by the
   returned amount modulo 12 and lands in [min, max), specials stay, the lead
@@ -316,6 +567,11 @@ def h_squash(c):
                          cl.ChordProgression(list(figs[:L])))
     amt2 = sheet.squash(lo, hi, key)
     c.check(c.eq(amt2, amt), 'lead sheet squash moves by the melody amount')
+    for e, r in zip(ev, list(sheet.melody)):
+      c.check(c.If(e < 0, c.eq(r, e),
+                   c.And(r >= lo, r < hi, c.eq((r - e - amt2) % 12, 0))),
+              'lead sheet melody moved by the returned amount mod 12 into '
+              '[min,max)')
     kk = c.concretize(amt2 % 12)
     for f, g in zip(figs, list(sheet.chords)):
       if f != 'N.C.':
@@ -338,25 +594,44 @@ def h_clamp(c):
   c.check(c.And(c.Implies(amt >= 0, c.And(r >= 0, r <= amt)),
                 c.Implies(amt < 0, c.And(r <= 0, r >= amt))),
           'clamped amount has the sign and at most the magnitude of the request')
+  # "clamps": the request itself when it fits, otherwise the nearest amount
+  # that does (the room lo-nmin <= 0 <= hi-nmax contains 0 by the assumption)
+  c.check(c.eq(r, c.Max(lo - nmin, c.Min(hi - nmax, amt))),
+          'clamped amount = the request limited to the room [lo-nmin, hi-nmax]')
+  c.cover('request fits', c.And(amt != 0, c.eq(r, amt)))
+  c.cover('request cut', c.And(r != 0, c.Not(c.eq(r, amt))))
 
 
 def h_augment(c):
+  """params: N, drums, delete; defaults=True leaves min_allowed_pitch,
+  max_allowed_pitch and delete_out_of_range_notes at their documented defaults
+  (0, 127, False); wide=True (delete mode) lets the input pitches lie anywhere
+  in 0..127, also outside the allowed range."""
   N = c.params['N']
   pb, sl = c.pb, c.mod('sequences_lib')
   ns = pb.NoteSequence()
-  lo = c.int('lo', 0, 127)
-  hi = c.int('hi', 0, 127)
-  c.assume(lo <= hi)
+  defaults = c.params.get('defaults', False)
+  wide = c.params.get('wide', False)
+  if defaults:
+    lo, hi = 0, 127
+  else:
+    lo = c.int('lo', 0, 127)
+    hi = c.int('hi', 0, 127)
+    c.assume(lo <= hi)
   ps = []
+  vels = []
   for i in range(N):
     p = c.int('n%d_p' % i, 0, 127)
-    c.assume(c.And(lo <= p, p <= hi))
+    if not wide:
+      c.assume(c.And(lo <= p, p <= hi))
     d = c.bool('n%d_d' % i) if c.params.get('drums') else False
     s = c.real('n%d_s' % i, 0)
     e = c.real('n%d_e' % i, 0)
     c.assume(e >= s)
-    ns.notes.add(pitch=p, velocity=64, start_time=s, end_time=e, is_drum=d)
+    v = c.int('n%d_v' % i, 1, 127) if (defaults or wide) else 64
+    ns.notes.add(pitch=p, velocity=v, start_time=s, end_time=e, is_drum=d)
     ps.append((p, d))
+    vels.append(v)
   tmin = c.int('tmin', -24, 24)
   tmax = c.int('tmax', -24, 24)
   c.assume(tmin <= tmax)
@@ -368,6 +643,7 @@ def h_augment(c):
     # interval unclamped; exactly the pitched notes it pushes out are deleted
     out = sl.augment_note_sequence(ns, smin, smax, tmin, tmax, lo, hi,
                                    delete_out_of_range_notes=True)
+    c.check(out is ns, 'the sequence is modified in place and returned')
     c.check(len(out.notes) <= N, 'no note invented')
     kept = list(out.notes)
     for m in kept:
@@ -375,21 +651,39 @@ def h_augment(c):
               'every kept pitched note lies inside the allowed range')
     # one common amount k in [tmin, tmax] explains which notes survive
     ok = []
+    ok2 = []
+    got = [(m.pitch, m.is_drum, m.velocity) for m in kept]
     for k in range(-24, 25):
       surv = [c.Or(d, c.And(p + k >= lo, p + k <= hi)) for p, d in ps]
       ok.append(c.And(tmin <= k, k <= tmax,
                       c.eq(len(kept), c.Count(surv))))
+      exp = [(sv, (c.If(d, p, p + k), d, v))
+             for sv, (p, d), v in zip(surv, ps, vels)]
+      ok2.append(c.And(tmin <= k, k <= tmax, K.multiset_eq(c, got, exp)))
     c.check(c.Or(ok), 'the survivors are those of one amount of the '
                       'requested interval')
+    c.check(c.Or(ok2), 'one amount k of the requested interval explains the '
+                       'result: survivors = notes with p+k in range, at p+k')
+    if N:
+      c.cover('a note is deleted', len(kept) < N)
     return
-  out = sl.augment_note_sequence(ns, smin, smax, tmin, tmax, lo, hi,
-                                 delete_out_of_range_notes=False)
+  if defaults:
+    out = sl.augment_note_sequence(ns, smin, smax, tmin, tmax)
+  else:
+    out = sl.augment_note_sequence(ns, smin, smax, tmin, tmax, lo, hi,
+                                   delete_out_of_range_notes=False)
+  c.check(out is ns, 'the sequence is modified in place and returned')
   c.check(len(out.notes) == N, 'no note deleted')
   shifts = []
   for (p, d), m in zip(ps, out.notes):
     c.check(c.Or(d, c.And(m.pitch >= lo, m.pitch <= hi)),
             'every pitch stays inside the allowed range')
     shifts.append((d, m.pitch - p))
+  for v, m in zip(vels, out.notes):
+    c.check(c.eq(m.velocity, v), 'velocities untouched')
+  for (p, d), m in zip(ps, out.notes):
+    c.check(c.And(c.eq(m.is_drum, d), c.Implies(d, c.eq(m.pitch, p))),
+            'drum notes keep their pitch')
   for d, sft in shifts:
     # the requested interval is clamped towards 0 (documented), so only the
     # magnitude bound is part of the contract
@@ -398,6 +692,120 @@ def h_augment(c):
   for (d1, s1) in shifts:
     for (d2, s2) in shifts:
       c.check(c.Or(d1, d2, c.eq(s1, s2)), 'all notes moved by the same amount')
+  if N and not c.params.get('drums'):
+    # "the interval [min_transpose, max_transpose] will be truncated such that
+    # no out-of-bounds notes will ever be created": when part of the requested
+    # interval fits the room [lo-nmin, hi-nmax], the amount comes from that
+    # part (an empty truncation is not documented and not constrained here)
+    nmin = c.Min([p for p, _ in ps])
+    nmax = c.Max([p for p, _ in ps])
+    t_lo = c.Max(tmin, lo - nmin)
+    t_hi = c.Min(tmax, hi - nmax)
+    for _, sft in shifts:
+      c.check(c.Implies(t_lo <= t_hi, c.And(t_lo <= sft, sft <= t_hi)),
+              'amount drawn from the requested interval truncated to the room')
+    c.cover('requested interval entirely above 0 and it fits',
+            c.And(tmin > 0, t_lo <= t_hi))
+
+
+def h_augment_times(c):
+  """augment_note_sequence stretches every time by one factor taken from
+  [min_stretch_factor, max_stretch_factor] (documented); pitch handling is
+  h_augment's."""
+  N = c.params['N']
+  pb, sl = c.pb, c.mod('sequences_lib')
+  ns = pb.NoteSequence()
+  ts = []
+  for i in range(N):
+    s = c.real('n%d_s' % i, 0)
+    e = c.real('n%d_e' % i, 0)
+    c.assume(e >= s)
+    ns.notes.add(pitch=60 + i, velocity=64, start_time=s, end_time=e)
+    ts.append((s, e))
+  tt = c.real('tt', 0)
+  for s, e in ts:
+    c.assume(e <= tt)
+  ns.total_time = tt
+  smin = c.real('smin', 0.5, 2)
+  smax = c.real('smax', 0.5, 2)
+  c.assume(smin <= smax)
+  out = sl.augment_note_sequence(ns, smin, smax, 0, 0)
+  c.check(len(out.notes) == N, 'no note deleted')
+  # total_time is left out: the transposition step resets it to the end of
+  # the last kept note (see META assumptions), only its upper bound is
+  # documented behaviour here
+  got = [x for m in out.notes for x in (m.start_time, m.end_time)]
+  want = [x for s, e in ts for x in (s, e)]
+  c.check(out.total_time <= smax * tt, 'total_time stretched at most by max')
+  for g, w in zip(got, want):
+    c.check(c.And(g >= smin * w, g <= smax * w),
+            'every time stretched by a factor within the requested interval')
+  for g1, w1 in zip(got, want):
+    for g2, w2 in zip(got, want):
+      c.check(c.eq(g1 * w2, g2 * w1), 'one common stretch factor')
+  c.cover('a real stretch', c.Not(c.eq(out.notes[0].end_time, ts[0][1])))
+
+
+def h_augment_errors(c):
+  """augment_note_sequence raises ValueError exactly when one of the three
+  (min, max) pairs is reversed (documented), and leaves an empty sequence
+  alone."""
+  pb, sl = c.pb, c.mod('sequences_lib')
+  ns = pb.NoteSequence()
+  ns.notes.add(pitch=c.int('p', 0, 127), velocity=64, start_time=0,
+               end_time=1)
+  ns.total_time = 1
+  lo = c.int('lo', 0, 127)
+  hi = c.int('hi', 0, 127)
+  tmin = c.int('tmin', -24, 24)
+  tmax = c.int('tmax', -24, 24)
+  smin = c.real('smin', 0.5, 2)
+  smax = c.real('smax', 0.5, 2)
+  bad = c.Or(lo > hi, tmin > tmax, smin > smax)
+  _, err = c.raises(sl.augment_note_sequence, ns, smin, smax, tmin, tmax, lo,
+                    hi, c.params['delete'])
+  c.check(c.If(bad, isinstance(err, ValueError), err is None),
+          'ValueError iff a minimum exceeds its maximum')
+  c.cover('reversed pitch range', lo > hi)
+  c.cover('reversed transpose range', tmin > tmax)
+  c.cover('reversed stretch range', smin > smax)
+  c.cover('all ranges proper', c.Not(bad))
+
+
+def h_squash_amount(c):
+  """The amount Melody.squash returns: "the notes are transposed to be in the
+  given key" (target key minus the melody's major key, modulo octaves) and
+  "octave shifted to be centered in the given range" (no other octave brings
+  the middle of the melody closer to the middle of [min, max-1]); 0 when there
+  is nothing to transpose."""
+  ml = c.mod('melodies_lib')
+  L = c.params['L']
+  ev = [c.int('e%d' % i, -2, 127) for i in range(L)]
+  key = c.int('key', 0, 11)
+  lo = c.int('lo', 0, 116)
+  hi = c.int('hi', 12, 128)
+  c.assume(hi - lo >= 12)
+  m = ml.Melody(list(ev))
+  ev = list(m)
+  # case split only: the library's own answer selects which of the twelve
+  # keys the independent definition below is asked to confirm
+  M = c.concretize(ml.Melody(list(ev)).get_major_key())
+  amt = m.squash(lo, hi, key)
+  pitched = c.Or([e >= 0 for e in ev])
+  if not pitched:
+    c.check(c.eq(amt, 0), 'nothing to transpose: amount 0')
+    return
+  c.check(_is_major_key(c, ev, int(M)),
+          'major key = lowest major key holding the most notes')
+  c.check(c.eq((amt - key + int(M)) % 12, 0),
+          'returned amount = target key - major key (mod 12)')
+  mn = c.Min([c.If(e >= 0, e, 127) for e in ev])
+  mx = c.Max([c.If(e >= 0, e, 0) for e in ev])
+  off = (lo + hi - 1) - (mn + mx) - 2 * amt
+  c.check(c.And(off <= 12, off >= -12),
+          'octave chosen to centre the melody in the range')
+  c.cover('a real transposition', c.Not(c.eq(amt % 12, 0)))
+  c.cover('octave shift', c.Or(amt >= 12, amt <= -12))
 
 
 HARNESSES = {
@@ -405,11 +813,18 @@ HARNESSES = {
     'h_spelling': h_spelling,
     'h_chord_symbol': h_chord_symbol,
     'h_ns_chords': h_ns_chords,
+    'h_bad_symbol': h_bad_symbol,
     'h_melody': h_melody,
     'h_progression': h_progression,
+    'h_melody_kw': h_melody_kw,
+    'h_sheet': h_sheet,
     'h_clamp': h_clamp,
     'h_squash': h_squash,
+    'h_major_key': h_major_key,
+    'h_squash_amount': h_squash_amount,
     'h_augment': h_augment,
+    'h_augment_errors': h_augment_errors,
+    'h_augment_times': h_augment_times,
 }
 
 _ROOTS_QUICK = ['C', 'F#', 'Bb', 'E', 'Cb', 'B#', 'Abb', 'G##']
@@ -447,6 +862,16 @@ def jobs(tier):
   add('h_transpose_ns', N=1, in_place=True)
   add('h_transpose_ns', N=2, in_place=False)
   add('h_transpose_ns', N=1, in_place=False, transpose_chords=False)
+  add('h_transpose_ns', N=1, defaults=True)
+  add('h_transpose_ns', N=2, defaults=True)
+  add('h_transpose_ns', N=0, in_place=False)
+  add('h_transpose_ns', N=0, in_place=True)
+  add('h_transpose_ns', N=1, in_place=True, transpose_chords=False)
+  add('h_transpose_ns', N=2, in_place=True)
+  add('h_transpose_ns', N=1, in_place=False, rich=['Cmaj7', 'F#m7/A'])
+  add('h_transpose_ns', N=1, in_place=True, transpose_chords=False,
+      rich=['Cmaj7', 'F#m7/A'])
+  add('h_transpose_ns', N=2, defaults=True, rich=['Bb13', 'Ebm7b5/Bbb'])
   for st in 'ABCDEFG':
     add('h_spelling', step=st)
   figs = []
@@ -459,9 +884,22 @@ def jobs(tier):
     add('h_chord_symbol', figure=f)
   add('h_ns_chords', figure='Cmaj7')
   add('h_ns_chords', figure='Ebm7b5/Bbb')
+  for f in ('Cmaj7xyz', 'C7/Gx', 'H7', 'C#b', 'Cm7/', 'c', ''):
+    add('h_bad_symbol', figure=f)
   for L in (1, 2):
     add('h_melody', L=L)
+  for w in ('min', 'min_kw', 'max_kw'):
+    add('h_melody_kw', L=1, which=w)
+  add('h_melody_kw', L=2, which='min')
+  add('h_melody_kw', L=2, which='max_kw')
+  add('h_sheet', figures=['F#m7/A', 'N.C.'])
+  add('h_sheet', figures=['N.C.', 'Ebm7b5/Bbb'])
   add('h_progression', figures=['C', 'N.C.'])
+  add('h_major_key', L=1)
+  add('h_major_key', L=2)
+  add('h_major_key', L=3)
+  add('h_squash_amount', L=1)
+  add('h_squash_amount', L=2, budget=600)
   add('h_squash', L=1, figures=['Am'])
   add('h_squash', L=2, figures=['C', 'F#m7/A'], budget=900)
   add('h_progression', figures=['F#m7/A', 'Bb13'])
@@ -469,6 +907,17 @@ def jobs(tier):
   add('h_augment', N=1)
   add('h_augment', N=2)
   add('h_augment', N=2, delete=True, budget=600)
+  add('h_augment', N=0)
+  add('h_augment', N=0, delete=True)
+  add('h_augment', N=1, defaults=True)
+  add('h_augment', N=2, defaults=True)
+  add('h_augment', N=1, delete=True, wide=True)
+  add('h_augment', N=2, delete=True, wide=True, budget=600)
+  add('h_augment_times', N=1)
+  add('h_augment_times', N=2)
+  add('h_augment', N=2, drums=True)
+  add('h_augment_errors', delete=False)
+  add('h_augment_errors', delete=True)
   if deep:
     add('h_transpose_ns', N=2, in_place=True, budget=900)
     add('h_transpose_ns', N=3, in_place=False, budget=2400, required=False)
@@ -476,6 +925,17 @@ def jobs(tier):
     add('h_melody', L=4, budget=2400, required=False)
     add('h_augment', N=2, drums=True, budget=900)
     add('h_augment', N=3, budget=1800, required=False)
+    add('h_transpose_ns', N=3, defaults=True, budget=2400, required=False)
+    add('h_transpose_ns', N=2, in_place=True, transpose_chords=False,
+        rich=['G##sus(b9)/Cb', 'Abb6'], budget=900)
+    add('h_melody_kw', L=3, which='min_kw', budget=900)
+    add('h_melody_kw', L=3, which='max_kw', budget=900)
+    add('h_sheet', figures=['Bb13', 'N.C.', 'Cb+/E'], budget=900)
+    add('h_major_key', L=4, budget=900, required=False)
+    add('h_squash_amount', L=3, budget=1800, required=False)
+    add('h_augment', N=3, delete=True, wide=True, budget=1800, required=False)
+    add('h_augment', N=3, defaults=True, budget=1800, required=False)
+    add('h_augment_times', N=3, budget=900)
     kinds = _kinds_all()
     n = 0
     for r in _ROOTS_ALL:
